@@ -629,10 +629,13 @@ UPGRADER:
 			switch c {
 			case ' ':
 			case '\r':
-				if p.headerValue == "" {
-					p.headerValue = string(data[start:i])
+				// a trailer field with an empty value is a trailer field too:
+				// it must have been declared, and it is not missing afterwards.
+				if len(p.trailer) == 0 {
+					return fmt.Errorf("invalid trailer '%v'", p.headerKey)
 				}
-				p.Processor.OnTrailerHeader(p, p.headerKey, p.headerValue)
+				delete(p.trailer, p.headerKey)
+				p.Processor.OnTrailerHeader(p, p.headerKey, "")
 				p.headerKey = ""
 				p.headerValue = ""
 
